@@ -140,6 +140,12 @@ func checkBasisOffered(p *Prog, r *Report) {
 				if calleeName(x) == "os.IsNotExist" && f.Val {
 					return true, "destination missing"
 				}
+				// errors.Is(lstatErr, E) true: the Lstat of the destination failed, there is nothing to offer
+				if calleeName(x) == "errors.Is" && f.Val && len(x.Common().Args) == 2 {
+					if c, i := extractOf(unwrapLocal(x.Common().Args[0])); c != nil && i == 1 && (calleeName(c) == "(*os.Root).Lstat" || calleeName(c) == "(*os.Root).Stat") {
+						return true, "destination cannot be examined (Lstat failed)"
+					}
+				}
 				if calleeName(x) == "(io/fs.FileMode).IsRegular" && !f.Val {
 					if inner, ok := x.Common().Args[0].(*ssa.Call); ok && inner.Common().IsInvoke() && inner.Common().Method.Name() == "Mode" {
 						return true, "destination not a regular file"
